@@ -142,9 +142,11 @@ type interpExpect struct {
 	tree      *gen.Node
 	err       bool
 	collision bool
-	block     []mpair
-	sets      []envOp
-	envAfter  *EnvNode
+	// renames inside the env block that landed on another entry's name (inside the model since wave 7)
+	blockRenamesOntoSibling int
+	block                   []mpair
+	sets                    []envOp
+	envAfter                *EnvNode
 }
 
 // expectInterp computes what Interpolate must produce, from the before-dump.
@@ -155,43 +157,51 @@ func expectInterp(before *gen.Node, runtime *EnvNode, prefer bool) *interpExpect
 	envField := before.Get("Env")
 	var blockOut *gen.Node
 	if envField != nil && envField.Kind == gen.KMap {
-		live := append([]string(nil), envField.Keys...)
-		blockOut = gen.Map()
-		blockOut.Tag = "ordered"
+		// The block is a dictionary processed entry by entry: an entry is rewritten IN PLACE (it keeps its
+		// position under its expanded name); a dictionary holds a name once, so another entry that carries
+		// that name - processed already or still to come - ceases to exist, and an entry that no longer
+		// exists is not processed. Every surviving entry is expanded exactly once.
+		type ent struct {
+			k, v  string
+			alive bool
+		}
+		ents := make([]ent, len(envField.Keys))
 		for i, k := range envField.Keys {
-			v := envField.Vals[i].S
+			ents[i] = ent{k, envField.Vals[i].S, true}
+		}
+		for i := range ents {
+			if !ents[i].alive {
+				continue
+			}
+			k, v := ents[i].k, ents[i].v
 			intk, e1 := interpolate.Interpolate(envM, k)
 			intv, e2 := interpolate.Interpolate(envM, v)
 			if e1 != nil || e2 != nil {
 				ex.err = true
 				ex.envAfter = envM
-				// a later rename colliding with a sibling would put the block outside the domain
-				for j := i + 1; j < len(envField.Keys); j++ {
-					nk, e := interpolate.Interpolate(envM, envField.Keys[j])
-					if e == nil && nk != envField.Keys[j] {
-						for jj, other := range live {
-							if jj != j && other == nk {
-								ex.collision = true
-							}
-						}
-					}
-				}
 				return ex
 			}
 			if intk != k {
-				for j, other := range live {
-					if j != i && other == intk {
-						ex.collision = true
+				for j := range ents {
+					if j != i && ents[j].alive && ents[j].k == intk {
+						ents[j].alive = false
+						ex.blockRenamesOntoSibling++
 					}
 				}
 			}
-			live[i] = intk
-			blockOut.Keys = append(blockOut.Keys, intk)
-			blockOut.Vals = append(blockOut.Vals, gen.Str(intv))
-			ex.block = append(ex.block, mpair{k: intk, v: mval{s: intv}})
+			ents[i].k, ents[i].v = intk, intv
 			if _, exists := envM.Get(intk); !(prefer && exists) {
 				envM.Set(intk, intv)
 				ex.sets = append(ex.sets, envOp{Op: "set", Name: intk, Value: intv})
+			}
+		}
+		blockOut = gen.Map()
+		blockOut.Tag = "ordered"
+		for _, e := range ents {
+			if e.alive {
+				blockOut.Keys = append(blockOut.Keys, e.k)
+				blockOut.Vals = append(blockOut.Vals, gen.Str(e.v))
+				ex.block = append(ex.block, mpair{k: e.k, v: mval{s: e.v}})
 			}
 		}
 	}
@@ -301,7 +311,8 @@ func runInterp(c *engine.Ctx, focus string) {
 		nrt, ci = 0, false
 		runtime = newEnvNode(false, nil)
 	}
-	valPool := []string{"one", "two", "x y", "", "$FOO", "${BAR}", "$$BAZ", "v$K", "main", "/tmp/p", "a-b"}
+	// values that are themselves names let a name built by expansion land on another entry's name
+	valPool := []string{"one", "two", "x y", "", "$FOO", "${BAR}", "$$BAZ", "v$K", "main", "/tmp/p", "a-b", "FOO", "BAR", "BAZ", "QUX"}
 	for i := 0; i < nrt; i++ {
 		name := w.universe[p.Draw(len(w.universe), "rt:name")]
 		runtime.Set(name, valPool[p.Draw(len(valPool), "rt:val")])
@@ -421,6 +432,9 @@ func runInterp(c *engine.Ctx, focus string) {
 	c.Sample = map[string]any{"format": format, "document": truncate(string(src), 1500), "runtime_env": runtime.contents(), "prefer_runtime": prefer,
 		"case_insensitive": ci, "ref_classes": classes}
 
+	if ex.blockRenamesOntoSibling > 0 {
+		c.ProbeN("env_block_renames_onto_a_sibling_entry", ex.blockRenamesOntoSibling)
+	}
 	if ex.collision {
 		// outside the property's domain (two sibling keys end up with the same
 		// name, or an env-block rename lands on a sibling): checked before the
